@@ -343,22 +343,33 @@ def rule_fg(ck, R):
                 t = cast.qual_type(f_)
     ck.verdict(t == 'unsigned short', 'C08.f', 'sequence:type', 'include/ufw/register-protocol.h', 'sequence counter is a 16-bit unsigned field (wraps modulo 2^16)' if t == 'unsigned short' else 'sequence counter type is %s' % t)
     # acknowledgements: crc over (pl, n) with the variant of the memory type, same pointer sent
-    ps = R.paths('regp_resp_ack', 'C08.g', eng)
+    # (the document, 3.1: a response mirrors the request's header - so the word size of an acknowledgement is the
+    # request's, and n counts words of that size; the instance's memory width is the same thing only where regp_process
+    # has checked it, not for a handler that answers through the public function)
+    enga = R.engine({'regp_is_16bitsem'})
+    ps = R.paths('regp_resp_ack', 'C08.g', enga)
     if ps is not None:
         bad = None
+        W16 = E['RP_OPT_WORD_SIZE_16']
         for p in ps:
             eh = p.calls('encode_header')
             smc = p.calls('send_memory')
             if not eh:
                 continue
             a = eh[0].args
-            if a[2] != C(MSEM_AUTO):
-                bad = 'acknowledgement not in the memory\'s own word semantic'
+            req16 = [c[1] == '==' for c in p.cond_terms() if c[0] == 'cmp' and c[1] in ('==', '!=') and c[2][0] == '&b' and c[2][2] == C(W16)
+                     and c[3] == C(W16) and 'header.options' in fmt(c[2][1])]
+            if not req16:
+                bad = bad or ('the acknowledgement\'s word size is %s without the request\'s WORD-SIZE-16 bit having been looked at: a handler answering an 8-bit request on an '
+                              'instance with 16-bit memory sends WORD-SIZE-16, counts n in 16-bit words and reads 2n octets from the caller\'s n' % (
+                                  'taken from the instance (MSEM_AUTO)' if a[2] == C(MSEM_AUTO) else fmt(a[2])))
+            elif a[2] != C(MSEM_16BIT if req16[0] else MSEM_8BIT):
+                bad = bad or 'acknowledgement of a %s request encoded with semantic %s' % ('16-bit' if req16[0] else '8-bit', fmt(a[2]))
             if 'header.sequence' not in fmt(a[5]) or 'header.address' not in fmt(a[6]):
                 bad = 'acknowledgement does not echo the request\'s sequence number and address'
             if strip_cast(a[7]) != ('v', 'n'):
                 bad = 'block size of the acknowledgement is %s' % fmt(a[7])
-            m16 = any(c == ('cmp', '==', ('f', ('&', ('f', P, 'memory')), 'type'), C(E['RP_MEMTYPE_16'])) for c in p.cond_terms())
+            m16 = bool(req16 and req16[0]) if req16 else any(c == ('cmp', '==', ('f', ('&', ('f', P, 'memory')), 'type'), C(E['RP_MEMTYPE_16'])) for c in p.cond_terms())
             cc = [e for e in p.calls() if 'crc16' in e.name]
             for c_ in cc:
                 if c_.name.endswith('_u16') != m16:
@@ -380,7 +391,7 @@ def rule_fg(ck, R):
                     bad = 'payload sent is (%s, %s)' % (fmt(smc[0].args[3]), fmt(smc[0].args[4]))
                 bad = bad or emitted_header(eh[0], smc[0])
         ck.verdict(bad is None, 'C08.g', 'regp_resp_ack', R.where('regp_resp_ack'),
-                   'acknowledgement echoes sequence/address, checksums exactly the payload it sends with the variant of the memory width' if bad is None else bad)
+                   'acknowledgement echoes sequence/address and the request\'s word size, checksums exactly the payload it sends with the variant of that word size' if bad is None else bad)
 
 
 def emitted_header(eh, smc):
@@ -591,6 +602,7 @@ def rule_h(ck, R):
 
 
 def run(ck):
+    ck.rule('C08.i', 'own frames are received as they were sent for every history on the channel: regp_recv does not override the SLIP decoder\'s state after an invalid escape sequence (the decoder knows whether the offending octet ended the frame), so no intact frame behind a damaged one is skipped (C06.f re-evaluated)')
     ck.rule('C08.a', 'the code tables of doc/regp.txt (types, option bits, response codes, meta codes, version) equal the enumerators/macros')
     ck.rule('C08.b', 'layout: exact bit summary of make_motv = version[3:0] type[7:4] options[11:8] meta[15:12]; header fields written and read big-endian at words 0,1,2-3,4-5,6,7 (C15 codecs)')
     ck.rule('C08.c', 'options: WORD-SIZE-16 per semantic, WITH-HEADER-CRC iff serial, WITH-PAYLOAD-CRC iff serial and payload and not a read request; header length 6+[hdcrc]+[plcrc]')
@@ -607,6 +619,8 @@ def run(ck):
     rule_e(ck, R)
     rule_fg(ck, R)
     rule_h(ck, R)
+    from . import c06 as _c06
+    _c06.rule_decoder_state(ck, R, rule='C08.i')
     # own frames pass the own receiver: the payload plausibility table of the receiver (C07.b) admits every payload
     # class the emitters produce (write error responses with their 32-bit payload included)
     from . import c07
